@@ -437,4 +437,141 @@ Proof.
         destruct (ffs names (pack r)) as [vals| |]; reflexivity.
 Qed.
 End WithSub.
+
+Lemma pack_unpack fs : pack (unpack fs) = fs.
+Proof. induction fs as [|n tg an t r IH]; simpl; [reflexivity | now rewrite IH]. Qed.
+
+Lemma names_fields_pack names lf :
+  names_fields names (pack lf) = concat (map (fun g => names_ty (fnames names g) (sf_ty g)) lf).
+Proof. induction lf as [|g r IH]; simpl; [reflexivity | now rewrite IH]. Qed.
+
+Lemma ffs_length names fs vals : ffs names fs = Ok vals -> length vals = length (unpack fs).
+Proof.
+  revert vals; induction fs as [|n tg an t r IH]; intros vals H.
+  - inversion H. reflexivity.
+  - rewrite (ffs_cons E env tags) in H.
+    match type of H with obind ?c _ = _ => destruct c as [x| |] end; cbn [obind] in H; try discriminate.
+    destruct (fspec_fields E sh env 0%N names r) as [rest| |] eqn:R; cbn [obind] in H; try discriminate.
+    inversion H; subst. simpl. f_equal. now apply IH.
+Qed.
+
+Lemma assemble_zipv lf vals : Forall (fun f => wf_sf f = true) lf -> length vals = length lf ->
+  assemble lf (zipv lf vals) = Ok vals.
+Proof.
+  intros W. revert vals; induction W as [|f r Wf _ IH]; intros [|v vs] L; simpl in L; try discriminate; [reflexivity|].
+  destruct (wf_sf_parts f Wf) as (Wn & Wt & _).
+  unfold zipv. cbn [map combine]. rewrite assemble_cons. rewrite Wn. cbn [negb fst].
+  rewrite convertible_refl. cbn [negb].
+  assert (C : convert (sf_ty f, v) (sf_ty f) = Ok (sf_ty f, v)).
+  { unfold convert. rewrite convertible_refl. simpl. destruct (sf_ty f); simpl in Wt; try discriminate; reflexivity. }
+  rewrite C. cbn [obind]. unfold set_into. cbn [fst snd]. rewrite assignable_refl. cbn [obind].
+  fold (zipv r vs). rewrite IH by lia. reflexivity.
+Qed.
+
+Lemma SEG_unpack names lf1 :
+  Forall (fun g => wf_sf g = true) lf1 ->
+  unpack_value (TStruct (pack lf1) [], VStruct (build_fields (pack lf1) (XSv (names_fields names (pack lf1))))) =
+  SEG names lf1.
+Proof.
+  intros W. unfold unpack_value. rewrite unpack_pack. rewrite names_fields_pack.
+  rewrite !concat_map, !map_map.
+  pose proof (build_fields_per_field (pack lf1)
+                (fun g => XSv (names_ty (fnames names g) (sf_ty g)))) as B.
+  rewrite unpack_pack in B. rewrite B.
+  - unfold SEG. clear. induction lf1 as [|g r IH]; simpl; [reflexivity | now rewrite IH].
+  - apply Forall_forall. intros g _. rewrite !map_length. apply names_len.
+Qed.
+
+Theorem subA_all : forall n, subA n.
+Proof.
+  induction n as [|n IH]; intros ifs inm tin1 x W S A H; [discriminate|].
+  cbn [translate unpack_ty] in H. rewrite xlate_layers_cons in H.
+  destruct (xlate_layer _ m_a (unpack ifs)) as [[lf1 st]| |] eqn:X; simpl in H; try discriminate.
+  unfold struct_of in H. destruct (has_dup (map sf_name lf1)); [discriminate|].
+  simpl in H. destruct (existsb _ lf1); [discriminate|]. simpl in H. injection H as Et Ex. subst tin1 x.
+  pose proof (proj1 (wf_fields_forall ifs) W) as Wl.
+  assert (S' : simple_fields (pack (unpack ifs)) = true) by (now rewrite pack_unpack).
+  assert (A' : alias_ok_fields tags (pack (unpack ifs)) = true) by (now rewrite pack_unpack).
+  destruct (alias_layer_rev n IH (unpack ifs) lf1 st X Wl S' A') as (I1 & I2 & I3).
+  exists (pack lf1). split; [reflexivity|]. split; [now apply wf_fields_pack|]. split.
+  - intros names. rewrite names_fields_pack, I2, pack_unpack. reflexivity.
+  - intros names B. cbn [reverse xs_layers xs_ty combine rev_layers]. cbn [obind].
+    rewrite SEG_unpack by exact I1.
+    rewrite <- (pack_unpack ifs) in B.
+    pose proof (I3 names [] B) as R. simpl app in R. simpl length in R. rewrite R.
+    rewrite pack_unpack.
+    destruct (ffs names ifs) as [vals| |] eqn:Fv; cbn [obind]; try reflexivity.
+    rewrite assemble_zipv; [reflexivity | exact Wl | eapply ffs_length; eassumption].
+Qed.
 End AliasStage.
+
+(* ---------- the flag / pflag chains: [alias; flatten] ---------- *)
+Theorem alias_flatten_chain_spec_l : forall fuel E tags tag te fs nm tt x filled,
+  wf_fields fs = true -> simple_fields fs = true -> alias_ok_fields tags fs = true ->
+  translate fuel [MAlias tags; MFlatten tag 0%N te] (TStruct fs nm) = Ok (tt, x) ->
+  length filled = length (unpack_ty tt) ->
+  Some (reverse fuel E [MAlias tags; MFlatten tag 0%N te] x (tt, VStruct filled)) =
+  counterpart_spec E [MAlias tags; MFlatten tag 0%N te] (TStruct fs nm) tt filled.
+Proof.
+  intros fuel E tags tag te fs nm tt x filled W S A H L.
+  destruct fuel as [|n]; [discriminate|]. cbn [translate unpack_ty] in H.
+  set (sub := fun (m : mangler) (ft : ty) => translate n [m] ft) in *.
+  rewrite xlate_layers_cons in H.
+  destruct (xlate_layer sub (MAlias tags) (unpack fs)) as [[lf1 st1]| |] eqn:X1; cbn [obind fst snd] in H; try discriminate.
+  rewrite xlate_layers_cons in H.
+  destruct (xlate_layer sub (MFlatten tag 0%N te) lf1) as [[lf2 st2]| |] eqn:X2; cbn [obind fst snd xlate_layers] in H; try discriminate.
+  unfold struct_of in H. destruct (has_dup (map sf_name lf2)) eqn:D; [discriminate|].
+  simpl in H. destruct (existsb _ lf2); [discriminate|]. simpl in H. injection H as Et Ex. subst tt x.
+  pose proof (proj1 (wf_fields_forall fs) W) as Wl.
+  assert (S' : simple_fields (pack (unpack fs)) = true) by (now rewrite pack_unpack).
+  assert (A' : alias_ok_fields tags (pack (unpack fs)) = true) by (now rewrite pack_unpack).
+  cbn [unpack_ty] in L. rewrite unpack_pack in L.
+  destruct (name_fields_env_of lf2 filled L) as (N1 & N2 & N3 & N4).
+  set (seg := combine lf2 (combine (map sf_ty lf2) filled)) in *.
+  set (env := env_of seg).
+  destruct (alias_layer_rev E env tags n (subA_all E env tags n) (unpack fs) lf1 st1 X1 Wl S' A') as (I1 & I2 & I3).
+  destruct (flatten_layer_names _ tag te _ _ _ X2 I1) as [Nm Ty].
+  assert (Hn : NoDup (map fst (env_of ([] ++ seg)))).
+  { simpl. fold env. unfold env. rewrite <- N1, N4. now apply has_dup_nodup. }
+  cbn [reverse xs_layers xs_ty combine rev_layers]. cbn [obind].
+  assert (U : unpack_value (TStruct (pack lf2) [], VStruct filled) = seg).
+  { unfold unpack_value. rewrite unpack_pack. reflexivity. }
+  rewrite U.
+  pose proof (flatten_stage_rev _ E (fun m sx sv => reverse n E [m] sx sv) tag te _ _ _ X2 I1 [] seg N2 N3 Hn) as R.
+  simpl app in R. simpl length in R. rewrite R. cbn [obind].
+  fold env.
+  assert (B : Forall (bound env) (map enc0 (anames_fields tags [] (pack (unpack fs))))).
+  { rewrite <- I2. apply Forall_forall. intros k Hk. apply assoc_in. unfold env. rewrite <- N1, N4, Nm. exact Hk. }
+  pose proof (I3 [] [] B) as R2. simpl app in R2. simpl length in R2.
+  unfold SEG in R2. unfold top_names. unfold fnames in R2. simpl app in R2.
+  rewrite R2. rewrite pack_unpack.
+  unfold counterpart_spec. cbn [shape_of shape_body flat_tail sh_flat]. rewrite N1. fold env.
+  destruct (fspec_fields E (Shape tags (Some 0%N) false false false) env 0%N [] fs) as [vals| |] eqn:Fv; cbn [obind]; try reflexivity.
+  rewrite (assemble_zipv (unpack fs) vals Wl); [reflexivity|].
+  eapply ffs_length; eassumption.
+Qed.
+
+(* ---------- C14 at source level: the value given under either name is the field's value ---------- *)
+Lemma spec_aliased_leaf E env tags names n tg t r :
+  wf_ty t = true -> leaf_ok t = true -> under_is_struct t = false -> exported n = true ->
+  has_alias tags tg = true ->
+  bound env (enc0 (names ++ [n])) -> bound env (enc0 (names ++ [n ++ alias_field_suffix])) ->
+  fspec_fields E (Shape tags (Some 0%N) false false false) env 0%N names (FCons n tg false t r) =
+  (x <- pick n t (valof env (enc0 (names ++ [n]))) (valof env (enc0 (names ++ [n ++ alias_field_suffix]))) ;;
+   rest <- fspec_fields E (Shape tags (Some 0%N) false false false) env 0%N names r ;;
+   Ok (x :: rest)).
+Proof.
+  intros W L U Ex Al B1 B2. rewrite (ffs_cons E env tags). rewrite Ex, Al. cbn [negb].
+  rewrite (fty_leaf E env tags (names ++ [n]) t W L U B1). cbn [obind].
+  rewrite (fty_leaf E env tags (names ++ [n ++ alias_field_suffix]) t W L U B2). cbn [obind]. reflexivity.
+Qed.
+
+Lemma pick_cases n t p a : wf_ty t = true ->
+  (is_vnil p = false -> is_vnil a = true -> pick n t p a = Ok p) /\
+  (is_vnil p = true -> is_vnil a = false -> pick n t p a = Ok a) /\
+  (is_vnil p = true -> is_vnil a = true -> pick n t p a = Ok VNil) /\
+  (is_vnil p = false -> is_vnil a = false -> pick n t p a = Err (alias_both_code n)).
+Proof.
+  intros W. unfold pick. rewrite (proj1 (proj2 (wf_ty_nilable t W))). rewrite !val_eqb_nil.
+  repeat split; intros P A; rewrite P, A; try reflexivity. destruct p; try discriminate. reflexivity.
+Qed.
